@@ -96,6 +96,10 @@ func (h *Handler) HandleMessage(msg stanza.Message, r xmlstream.TokenReadEncoder
 	if ok {
 		select {
 		case iter.msgC <- xmlstream.MultiReader(xmlstream.Token(msgTok), xmlstream.Token(tok), r):
+			// The message is read from the session's token stream: do not let
+			// the session move on before the iterator is done with it (its next
+			// call to Next, or Close).
+			<-iter.ack
 			return nil
 		case <-iter.done:
 			// Nobody iterates over this query any more: the message goes to the
@@ -144,6 +148,7 @@ func (h *Handler) FetchIQ(ctx context.Context, filter Query, iq stanza.IQ, s *xm
 	iter := &Iter{
 		msgC: msgC,
 		done: make(chan struct{}),
+		ack:  make(chan struct{}),
 		h:    h,
 		id:   filter.ID,
 	}
